@@ -2,6 +2,7 @@
    Directives: ExtrOcamlBasic only (bool, option, list, prod, unit, sumbool -> OCaml);
    N / Z / positive / nat stay the extracted inductive datatypes. *)
 From Coq Require Extraction ExtrOcamlBasic.
-From TV Require C14Run.
+From TV Require C14Run C19Run.
 Extraction Language OCaml.
-Extraction "model.ml" C14Run.run_c14 C14Run.chk_c14.
+Extraction "model.ml" C14Run.run_c14 C14Run.chk_c14
+  C19Run.run_c19 C19Run.chk_c19.
